@@ -1,6 +1,7 @@
 import Ufo2ftModel.Drv.GeomJ
 import Ufo2ftModel.Spec.C02
 import Ufo2ftModel.Spec.C02Drop
+import Ufo2ftModel.Spec.C02Flags
 import Ufo2ftModel.Spec.Good
 namespace Ufo2ft.Drv.C02
 open Lean Ufo2ft Ufo2ft.Drv Ufo2ft.C02
@@ -150,10 +151,103 @@ def joint (req : Json) : R Reply := do
     return { model := mj, holds := hj && gvOk && instOk,
              info := Json.mkObj [("dropped", natJ dropped), ("why", strsJ why)] }
 
+
+/-! ### op "flags": the glyf flag post-processing (InstructionCompiler._set_simple_flags / _set_composite_flags) -/
+section FlagsOp
+open Ufo2ft.C02.Flags
+def asUfoFlags (j : Json) : R (String × UfoFlags) := do
+  let n ← asStr (← field j "name")
+  let ovl ← asOpt asBool (← field j "ovl")
+  let ids ← asList (asOpt asStr) (← field j "ids")
+  let ol ← asOpt (asList (fun e => do
+    match ← asArr e with
+    | [i, r, m] => return ((← asStr i), (⟨← asOpt asBool r, ← asOpt asBool m⟩ : ObjLib))
+    | _ => throw "objlib")) (← field j "objlibs")
+  return (n, ⟨ovl, ids, ol⟩)
+
+def compTTJ (c : CompTT) : Json :=
+  Json.arr #[Json.str c.base, intJ c.dx, intJ c.dy, Json.arr #[ratJ c.lin.1, ratJ c.lin.2.1, ratJ c.lin.2.2.1, ratJ c.lin.2.2.2], natJ c.flags]
+def asCompTT (j : Json) : R CompTT := do
+  match ← asArr j with
+  | [b, x, y, l, f] =>
+    match ← asList asRat l with
+    | [a, b', c, d] => return ⟨← asStr b, ← asInt x, ← asInt y, (a, b', c, d), ← asNat f⟩
+    | _ => throw "lin"
+  | _ => throw "comptt"
+def simpleTTJ (name : String) (g : SimpleTT) : Json :=
+  Json.mkObj [("name", name), ("kind", "simple"), ("nc", intJ g.numberOfContours),
+    ("coords", listJ (fun (p : Int × Int) => Json.arr #[intJ p.1, intJ p.2]) g.coords), ("ends", listJ natJ g.endPts), ("flags", listJ natJ g.flags)]
+def asSimpleTT (j : Json) : R SimpleTT := do
+  return ⟨← asInt (← field j "nc"), ← asList (asPair asInt asInt) (← field j "coords"), ← asList asNat (← field j "ends"),
+          ← asList asNat (← field j "flags")⟩
+
+/-- in: the "font" input + `flagsIn` = {auto, widths: [[glyph, advance]], glyphs: [{name, ovl, ids, objlibs}]} (what the UFO
+    glyphs' libs say; hmtx advances of the compiled font).  The pen's output is the MODEL's (`ttGlyph` of the pre-processed glyph:
+    flag byte = on-curve bit, component flags = ROUND_XY_TO_GRID); model = `setSimpleFlags` / `setCompositeFlags` of it;
+    obs: per glyph the glyf entry's coordinates, contour ends and flag bytes, or the component records with their flag words
+    (masked with the bits the glyf compiler does not compute itself, 0x1E14). -/
+def flags (req : Json) : R Reply := do
+  let i ← field req "in"
+  let gs ← asGlyphSet (← field i "glyphs")
+  let o : Opts := { convertCubics := ← asBool (← field i "convertCubics"),
+                    reverseDirection := ← asBool (← field i "reverseDirection"),
+                    flatten := ← asBool (← field i "flatten") }
+  let fi ← field i "flagsIn"
+  let auto ← asBool (← field fi "auto")
+  let widths ← asList (asPair asStr asInt) (← field fi "widths")
+  let ufl ← asList asUfoFlags (← field fi "glyphs")
+  let adv := fun n => alookup n widths
+  let obs ← field req "obs"
+  let oerr ← asOpt asStr (← field obs "err")
+  match preprocess o gs with
+  | .error e => return { model := Json.mkObj [("err", gerrJ e)], holds := oerr.isSome }
+  | .ok pre =>
+    -- (name, pen output, post-processed)
+    let outs : List (String × (SimpleTT ⊕ List CompTT) × (SimpleTT ⊕ List CompTT)) := pre.map (fun (n, g) =>
+      match ttGlyph o g with
+      | .simple cs =>
+        let pen := penSimple cs
+        (n, .inl pen, .inl (match alookup n ufl with | some u => setSimpleFlags u.overlap pen | none => pen))
+      | .composite ks =>
+        let pen := penComps ks
+        (n, .inr pen, .inr (match alookup n ufl with
+          | some u => setCompositeFlags auto adv ((adv n).getD 0) u pen
+          | none => pen)))
+    let model := Json.mkObj [("err", Json.null), ("glyphs", listJ (fun (e : String × (SimpleTT ⊕ List CompTT) × (SimpleTT ⊕ List CompTT)) =>
+      match e.2.2 with
+      | .inl s => simpleTTJ e.1 s
+      | .inr cs => Json.mkObj [("name", e.1), ("kind", "composite"), ("comps", listJ compTTJ cs)]) outs)]
+    match oerr with
+    | some _ => return { model, holds := false }
+    | none =>
+      let og ← asArr (← field obs "glyphs")
+      let mut bad : List String := []
+      for j in og do
+        let n ← asStr (← field j "name")
+        let kind ← asStr (← field j "kind")
+        match alookup n outs with
+        | none => if n != ".notdef" then bad := bad ++ [n]
+        | some (pen, _) =>
+          match pen, kind with
+          | .inl p, "simple" =>
+            let out ← asSimpleTT j
+            let lib := match alookup n ufl with | some u => u.overlap | none => none
+            if !(holdsSimpleFlags lib p out) then bad := bad ++ [n]
+          | .inr p, "composite" =>
+            let out ← asList asCompTT (← field j "comps")
+            let ok := match alookup n ufl with
+              | some u => holdsCompositeFlags auto u p out
+              | none => out == p
+            if !ok then bad := bad ++ [n]
+          | _, _ => bad := bad ++ [n]
+      return { model, holds := bad.isEmpty, info := strsJ bad }
+end FlagsOp
+
 def handle (op : String) (req : Json) : R Reply :=
   match op with
   | "font" => font req
   | "joint" => joint req
+  | "flags" => flags req
   | _ => throw s!"C02: unknown op {op}"
 
 end Ufo2ft.Drv.C02
